@@ -141,6 +141,7 @@ func (tps *TPS) Init(parties []uint16, threshold int, sendMsg func(msg []byte, i
 	tps.threshold = threshold
 	tps.sendMsg = sendMsg
 	tps.shares = make(map[uint16]SK)
+	tps.sharesProcessed = 0
 	tps.commitments = make(map[uint16][]byte)
 	tps.publicKeysOfParties = make(map[uint16][]byte)
 	tps.signal = sync.Cond{L: &tps.lock}
